@@ -33,6 +33,48 @@ Theorem c17_persistent_failures_terminal : forall st1 st2 st3 st4 rest,
 Proof. exact persistent_failures. Qed.
 Print Assumptions c17_persistent_failures_terminal.
 
+(** Failure causes. WHY a request failed (provider answers 4xx / 5xx for the whole retry budget / something that does
+    not decode, provider endpoint never answers until the client's own timeout fires, connection refused, the request's
+    context is cancelled, a session-store operation fails - plainly, with a deadline error, with a cancellation) reaches
+    respondError for the log line only: the fault the handler model sees is the status. The scripts of `wwh retry` name a
+    cause with every injected failure and the driver arranges exactly that fault on the real stack, so the correspondence
+    run checks this cause-independence of the real code for login (pushed authorization request), callback (token endpoint,
+    session creation) and logout / local logout (session lookup). *)
+Theorem c17_cause_does_not_reach_the_counter : forall cfg r st pre k1 k2,
+  fault_of_cause st k1 = fault_of_cause st k2 /\ fault_of_cause st k1 = CFErr st /\
+  rs_kind (respond_error cfg r st pre) = (if auto_retries (r_retry r) st then CrRedirect307 else CrErrorPage).
+Proof. intros. repeat split. unfold respond_error. destruct (auto_retries (r_retry r) st); reflexivity. Qed.
+Print Assumptions c17_cause_does_not_reach_the_counter.
+
+(** the counter machine with the causes spelled out, every cause counted (the code): (1) again, whatever the causes *)
+Theorem c17_at_most_three_any_cause : forall counted evs,
+  (forall k, counted k = true) -> Z.of_nat (List.length evs) < max_int ->
+  (max_redirect_run (counter_run_sel counted None evs) <= 3)%nat.
+Proof. exact retry_runs_bounded_any_cause. Qed.
+Print Assumptions c17_at_most_three_any_cause.
+
+(** ... and why every cause has to be counted: exempt ONE cause (say: "the request was interrupted, it says nothing
+    about whether a retry would succeed") and a request that keeps failing for that cause - a provider endpoint that
+    hangs - is answered with an automatic retry redirect every time, for ever: n failures, n consecutive redirects. *)
+Theorem c17_uncounted_cause_refuted : forall counted k st n,
+  counted k = false -> st <> 429 ->
+  counter_run_sel counted None (repeat (st, k) n) = repeat ObsRedirect n /\
+  max_redirect_run (counter_run_sel counted None (repeat (st, k) n)) = n.
+Proof. intros counted k st n Hk Hst. split; [now apply uncounted_cause_loops|now apply uncounted_cause_unbounded]. Qed.
+Print Assumptions c17_uncounted_cause_refuted.
+
+Example c17_causes_nonvacuous :
+  let all := fun _ : fcause => true in
+  let but_timeouts := fun k => match k with FcProviderTimeout | FcStoreTimeout => false | _ => true end in
+  counter_run_sel all None (repeat (500, FcProviderTimeout) 6) =
+    [ObsRedirect; ObsRedirect; ObsRedirect; ObsPage 500; ObsPage 500; ObsPage 500] /\
+  counter_run_sel all None [(500, FcProviderTimeout); (500, FcStore); (401, FcUnspecified); (500, FcClientCanceled); (500, FcProvider5xx)] =
+    [ObsRedirect; ObsRedirect; ObsRedirect; ObsPage 500; ObsPage 500] /\
+  counter_run_sel but_timeouts None (repeat (500, FcProviderTimeout) 6) = repeat ObsRedirect 6 /\
+  counter_run_sel but_timeouts None (repeat (500, FcProviderRefused) 6) =
+    [ObsRedirect; ObsRedirect; ObsRedirect; ObsPage 500; ObsPage 500; ObsPage 500].
+Proof. vm_compute. repeat split; reflexivity. Qed.
+
 (** (4) a rate-limited kresponse is never auto-retried, whatever the counter *)
 Theorem c17_429_never_retried : forall cfg r pre c,
   rs_kind (respond_error cfg r 429 pre) = CrErrorPage /\ rs_status (respond_error cfg r 429 pre) = 429 /\
@@ -164,6 +206,23 @@ Example c17_nonvacuous :
    fst (follow 50 e false b2 (rq EpLogin "/app/oauth2/login") (repeat (CFErr 500) 20)) = [307; 307; 307; 500]) /\
   seg_prefix (e_mp e (b "/app/oauth2/login")) (b "/app/oauth2/login").
 Proof. vm_compute. repeat split; try reflexivity. right. right. eexists. reflexivity. Qed.
+
+(** the same on the composed model with causes: a pushed-authorization endpoint that hangs, then refuses, then answers
+    5xx ...: three retries and the page; login works but the token endpoint hangs at every callback: three round trips
+    and the page; a logged-in browser whose logout keeps failing on the session store: three retries and the page. *)
+Example c17_nonvacuous_causes :
+  let e := env_of single_cfg "h.example.com" in
+  let b0 := {| b_jar := []; b_now := 0; b_session := false |} in
+  let f := fault_of_cause in
+  fst (follow 50 e false b0 (rq EpLogin "/app/oauth2/login")
+         [f 500 FcProviderTimeout; f 500 FcProviderRefused; f 500 FcProvider5xx; f 500 FcProviderTimeout; f 500 FcClientCanceled])
+    = [307; 307; 307; 500] /\
+  fst (follow 50 e true b0 (rq EpLogin "/app/oauth2/login")
+         [CFNone; f 500 FcProviderTimeout; CFNone; f 500 FcStoreTimeout; CFNone; f 500 FcStoreCanceled; CFNone; f 500 FcProviderTimeout; CFNone])
+    = [302; 307; 302; 307; 302; 307; 302; 500] /\
+  (let b1 := run_jar_seq e b0 [(0, rq EpLogin "/app/oauth2/login", CFNone); (0, rq EpCallback "/app/oauth2/callback", CFNone)] in
+   fst (follow 50 e false b1 (rq EpLogout "/app/oauth2/logout") (repeat (f 500 FcStoreTimeout) 9)) = [307; 307; 307; 500]).
+Proof. vm_compute. repeat split; reflexivity. Qed.
 
 (** (5) rate limit. [rl_step] is the logincount cookie seen by the rate limiter for a browser whose session cookie
     resolves to a stored session. With the limit enabled and a window of at least one whole second
